@@ -5,7 +5,7 @@ CONSTANTS
   Dense = TRUE
   KeepStatus = FALSE
   RecheckAtApply = TRUE
-  RecheckISR = FALSE
+  RecheckISR = TRUE
   CountAll = TRUE
   InitISRs = {{"r1", "r2", "r3"}}
   L0 = "r1"
